@@ -345,7 +345,7 @@ def run_case(case, ctx):
 		classes.append('fault=' + fault['type'])
 		classes.append('fault_expected_fail' if expect_fail else 'fault_parses_ok')
 		nontrivial = nontrivial or expect_fail
-	return {'nontrivial': nontrivial, 'classes': classes}
+	return {'nontrivial': nontrivial, 'classes': classes, 'expects_rejection': bool(expect_fail)}
 
 
 @st.composite
